@@ -640,6 +640,15 @@ def run(ctx):
        {'length': 2, 'values': VALUES_CHAIN,
         'forms': two_forms if quick else all_forms}),
   ]
+  # mappings whose keys are plain strings spelled like the reserved markers
+  # ('SELF', 'SKIP') are ordinary mappings: same laws
+  look = sorted({te.with_lookalike_keys(s) for s in (d2 if not quick else
+                                                    _roots(te.specs(2, max_children=2,
+                                                                    leaf_kinds=('int', 'arr'))))
+                 if te.has_dict(s)}, key=repr)
+  plan.append(('single', look, {'values': VALUES_SPINE, 'multi': 2}))
+  plan.append(('chain', look[:200] if quick else look,
+               {'length': 2, 'values': VALUES_CHAIN, 'forms': two_forms}))
   if quick:
     plan.append(('chain', [EMPTY] + d1, {
         'length': 2, 'values': VALUES_CHAIN,
